@@ -1,4 +1,6 @@
 """C02: mass / volume / number-density bookkeeping on real blocks, assemblies and a mini core."""
+import re
+
 from symx.core import AND, OR, NOT, ITE, Sym
 from symx.engine import harness
 from symx import shims
@@ -28,10 +30,11 @@ ALLNUCS = ["U235", "U238", "ZR", "FE", "CR", "NA"]
 
 
 def fill(ctx, b, pattern, tag="", geom=False):
-    """Inject symbolic number densities and either symbolic component volumes (geom=False) or a symbolic
+    """(pattern: a key of PATTERNS or a {component: [nuclides]} dict.)  Inject symbolic number densities and either symbolic component volumes (geom=False) or a symbolic
     block height with the real component areas (geom=True: volume = area x height computed by armi).
     Returns ({comp: vol}, {(comp, nuc): dens})."""
     vols, dens = {}, {}
+    held = pattern if isinstance(pattern, dict) else PATTERNS[pattern]
     if geom:
         b.p.height = ctx.real("h%s" % tag, 1.0, 400.0)
         b.clearCache()
@@ -44,7 +47,7 @@ def fill(ctx, b, pattern, tag="", geom=False):
             c.p.volume = v
             vols[c.name] = v
         nd = {}
-        for nuc in PATTERNS[pattern].get(c.name, []):
+        for nuc in held.get(c.name, []):
             n = ctx.real("n_%s_%s%s" % (c.name, nuc, tag), 0.0, 10.0)
             nd[nuc] = n
             dens[(c.name, nuc)] = n
@@ -392,3 +395,147 @@ def assembly_setters_after_a_height_change(ctx, which):
     ctx.check_close("assembly setMass reads back after the height change", a.getMass("U235"), m, scale=m + 1e-30)
     ctx.check_close("assembly volume follows the new height", a.getVolume(), sum(b.getVolume() for b in a),
                     scale=a.getVolume())
+
+
+# ---------------------------------------------------------------------------------------------------------
+# element selections
+
+# compositions holding isotopes WITHOUT natural abundance next to natural ones (irradiated / reprocessed fuel,
+# activated steel), elements without any natural isotope (PU, AM), elemental nuclides (ZR, NA, CR) and isotopes
+# of one element spread over several components
+ELEMENT_PATTERNS = {
+    "irradiated": {"fuel": ["U235", "U236", "U238", "PU239", "ZR"], "clad": ["FE56"], "duct": ["FE56", "FE55"],
+                   "intercoolant": ["NA"]},
+    "spread": {"fuel": ["U233", "U238", "PU240"], "clad": ["U236", "FE54", "FE59"], "duct": ["PU239", "CR"],
+               "intercoolant": ["NA23", "U234", "NA24"]},
+    "thorium": {"fuel": ["TH232", "TH233", "U233", "U232"], "clad": ["ZR90", "ZR93", "ZR95"], "duct": ["AM241", "AM242M"],
+                "intercoolant": []},
+}
+
+
+def element_of(nuc):
+    """element symbol of a nuclide name (U236 -> U, AM242M -> AM, ZR -> ZR): its leading letters"""
+    return re.match("[A-Z]+", nuc).group(0)
+
+
+@harness("C02", bounds="one real HexBlock, 4 components with symbolic volumes [1e-3,1e4] and densities [0,10]; "
+                       "compositions holding isotopes without natural abundance (U236, U233, FE55, TH233 ...) next to "
+                       "natural ones, man-made elements, elemental nuclides, isotopes of one element spread over "
+                       "several components; every element present selected by its symbol at block and component level",
+         stubs=STUBS, instances={"quick": [dict(pattern="irradiated"), dict(pattern="spread")],
+                                 "thorough": [dict(pattern=p) for p in ELEMENT_PATTERNS]})
+def element_selection_covers_every_isotope_present(ctx, pattern):
+    b = _build.mk_block()
+    vols, dens = fill(ctx, b, ELEMENT_PATTERNS[pattern])
+    elems = sorted({element_of(k) for (_, k) in dens})
+    for obj in [b] + list(b):
+        mine = {(c, k): n for (c, k), n in dens.items() if obj is b or c == obj.name}
+        what = "block" if obj is b else obj.name
+        grams = {el: sum(vols[c] * n * atw(k) / K for (c, k), n in mine.items() if element_of(k) == el) for el in elems}
+        total = sum(grams.values())
+        for el in elems:
+            got = obj.getMass(el)
+            if ctx.canary and obj is b and el == "U":
+                n1 = dens[("fuel", ELEMENT_PATTERNS[pattern]["fuel"][1])]      # forgets one isotope, rarely
+                got = got - ITE(n1 > 9.99, vols["fuel"] * n1 * 236.0 / K, 0)
+            ctx.check_close("%s: mass(element %s) = sum of N V A / k over the isotopes of %s that are present" % (
+                what, el, el), got, grams[el], scale=grams[el] + 1e-30)
+        ctx.check_close("%s: the element masses add up to the total mass" % what, sum(obj.getMass(el) for el in elems),
+                        obj.getMass(), scale=total + 1e-30)
+        ctx.check_close("%s: mass(list of all elements) = total mass" % what, obj.getMass(list(elems)), obj.getMass(),
+                        scale=total + 1e-30)
+        if len(elems) > 1:
+            pair = [elems[0], elems[-1]]
+            ctx.check_close("%s: mass(list of two elements) = sum of the two" % what, obj.getMass(list(pair)),
+                            grams[pair[0]] + grams[pair[1]], scale=grams[pair[0]] + grams[pair[1]] + 1e-30)
+    # mass fractions of element selections
+    ctx.assume(sum(dens.values()) > 1e-6)
+    fuel = b.getComponentByName("fuel")
+    for obj in (b, fuel):
+        what = "block" if obj is b else obj.name
+        if obj is fuel and not bool(sum(n for (c, k), n in dens.items() if c == "fuel") > 1e-9):
+            continue
+        mf = obj.getMassFracs()
+        for el in elems:
+            want = sum(f for k, f in mf.items() if element_of(k) == el)
+            ctx.check_close("%s: massFrac(element %s) = sum of the mass fractions of its isotopes present" % (what, el),
+                            obj.getMassFrac(el), want, scale=1.0)
+
+
+# ---------------------------------------------------------------------------------------------------------
+# composite-level setters that introduce a nuclide no child holds yet
+
+NEW_NUCLIDE_PATTERNS = dict(PATTERNS, empty={"fuel": [], "clad": [], "duct": [], "intercoolant": []})
+
+
+@harness("C02", bounds="one real HexBlock, 4 components, volumes [1e-3,1e4] and densities [0,10] symbolic; 0, 2 or all "
+                       "components with an EMPTY composition (void gap); updateNumberDensities / setNumberDensities "
+                       "with a nuclide that no child holds (value in [0,10]) together with one that some hold",
+         stubs=STUBS,
+         instances={"quick": [dict(pattern="sparse", via="update"), dict(pattern="sparse", via="set"),
+                              dict(pattern="empty", via="update")],
+                    "thorough": [dict(pattern=p, via=v) for p in NEW_NUCLIDE_PATTERNS for v in ("update", "set")]})
+def block_setters_introduce_a_new_nuclide(ctx, pattern, via):
+    b = _build.mk_block()
+    vols, dens = fill(ctx, b, NEW_NUCLIDE_PATTERNS[pattern])
+    V = sum(vols.values())
+    x = ctx.real("x", 0.0, 10.0)
+    y = ctx.real("y", 0.0, 10.0)
+    present = sorted({k for (_, k) in dens})
+    before = _snapshot(b)
+    req = {"PU239": x, "AM241": 0.5 * x}
+    if "FE" in present:
+        req["FE"] = y
+    if via == "update":
+        b.updateNumberDensities(dict(req))
+    else:
+        b.setNumberDensities(dict(req))
+    for nuc, want in req.items():
+        got = b.getNumberDensity(nuc)
+        if ctx.canary and nuc == "PU239":
+            got = got * ITE(x > 9.99, 1 - vols["clad"] / V, 1)
+        ctx.check_close("%sNumberDensities reads back %s (%s)" % (via, nuc, "held" if nuc in present else "new"),
+                        got, want, scale=want + 1e-30)
+        ctx.check_close("... atoms of %s summed over the components = requested density x block volume" % nuc,
+                        sum(c.getNumberDensity(nuc) * vols[c.name] for c in b), want * V, scale=want * V + 1e-30)
+    for nuc, old in before.items():
+        if nuc in req:
+            continue
+        if via == "update":
+            ctx.check_close("updateNumberDensities leaves N(%s) unchanged" % nuc, b.getNumberDensity(nuc), old,
+                            scale=old + 1e-30)
+        else:
+            ctx.check_close("setNumberDensities zeroes unlisted %s" % nuc, b.getNumberDensity(nuc), 0.0, scale=1.0)
+
+
+@harness("C02", bounds="assembly of 2 blocks (real areas, symbolic heights [1,400] and densities); one block may have "
+                       "only empty components; assembly-level updateNumberDensities / setNumberDensities with a nuclide "
+                       "no block holds", stubs=STUBS, qtimeout_ms=30000,
+         instances={"quick": [dict(second="empty", via="update")],
+                    "thorough": [dict(second=p, via=v) for p in ("empty", "sparse") for v in ("update", "set")]})
+def assembly_setters_introduce_a_new_nuclide(ctx, second, via):
+    import armi.reactor.assemblies as asmmod
+    shims.patch(asmmod, np=shims.np_shim)
+    a = _build.mk_assembly(2)
+    info = [fill(ctx, b, NEW_NUCLIDE_PATTERNS[p], tag="_%d" % bi, geom=True)
+            for bi, (b, p) in enumerate(zip(a, ("typical", second)))]
+    a.calculateZCoords()
+    x = ctx.real("x", 0.0, 10.0)
+    oldU = a.getNumberDensity("U235")
+    req = {"PU239": x}
+    if via == "update":
+        a.updateNumberDensities(dict(req))
+    else:
+        a.setNumberDensities(dict(req))
+    got = a.getNumberDensity("PU239")
+    if ctx.canary:
+        got = got * ITE(x > 9.99, 1.01, 1)
+    ctx.check_close("assembly %sNumberDensities reads back a nuclide no block held" % via, got, x, scale=x + 1e-30)
+    aV = sum(sum(v.values()) for v, _ in info)
+    ctx.check_close("... atoms summed over the blocks = requested density x assembly volume",
+                    sum(b.getNumberDensity("PU239") * sum(v.values()) for b, (v, _) in zip(a, info)), x * aV,
+                    scale=x * aV + 1e-30)
+    if via == "update":
+        ctx.check_close("... and leaves U235 alone", a.getNumberDensity("U235"), oldU, scale=oldU + 1e-30)
+    else:
+        ctx.check_close("... and zeroes unlisted U235", a.getNumberDensity("U235"), 0.0, scale=1.0)
